@@ -17,7 +17,25 @@ struct Base {
 
 fn gen_base(c: &mut Choice) -> Base {
     // mostly valid generated files (so that queries succeed fault-free), a share of samples
-    let (data, names, note) = if c.chance(40) {
+    let bulk = c.u8();
+    let (data, names, note) = if bulk >= 248 {
+        // a file with one section larger than 64 KiB (a reader may serve it in several pieces)
+        use verif_model::elfw as m;
+        let mut f = filegen::FileSpec::new(ALL_ENC[c.below(4) as usize]);
+        f.add_sec(b"", m::SHT_NULL, vec![]);
+        let mut body = vec![0u8; (64 << 10) + 1 + c.below(40 << 10) as usize];
+        verif_model::choice::fill(c.u64() | 1, &mut body);
+        for b in body.iter_mut() {
+            *b |= 1;
+        }
+        f.add_sec(b".bulk", m::SHT_PROGBITS, body);
+        let sidx = f.add_sec(b".shstrtab", m::SHT_STRTAB, vec![]);
+        f.shstrndx = Some(sidx);
+        filegen::random_layout(c, &mut f, 24);
+        let b = filegen::build(&f);
+        let n = b.bytes.len();
+        (b.bytes, vec![b"memset".to_vec()], format!("file of {} bytes with a section above 64 KiB", n))
+    } else if c.chance(40) {
         let all = inputs::samples();
         let small: Vec<_> = all.iter().filter(|(_, b)| b.len() <= 16_000).collect();
         let (n, b) = small[c.idx(small.len())];
@@ -33,6 +51,11 @@ fn gen_base(c: &mut Choice) -> Base {
         Err(_) => (0, 0),
     };
     let (mut ops, _) = stream::gen_ops(c, nsec, nseg, data.len(), &names, 10);
+    if bulk >= 248 {
+        ops.insert(0, Q::SecData(1));
+        ops.truncate(6);
+        ops.push(Q::SecData(1));
+    }
     // repeat some ops so that a query that failed is asked again later
     let extra = c.below(4) as usize;
     for _ in 0..extra.min(ops.len()) {
@@ -122,6 +145,15 @@ fn oracle(case: &[u8], obs: &mut Obs) -> Result<(), String> {
     if fired0.iter().any(|x| *x) {
         return Err("harness: a fault fired in the fault-free run".into());
     }
+    // "a short read is legal reader behaviour": the fault-free answers do not depend on how the reader cuts its reads
+    if !b.chunks.is_empty() || b.intr != 0 {
+        let plain = Base { data: b.data.clone(), ops: b.ops.clone(), chunks: vec![], intr: 0, pos0: b.pos0, note: String::new() };
+        let (clean0, _, _) = run_with(&plain, vec![], &ctx0)?;
+        if clean0.open_ok != clean.open_ok || clean0.answers != clean.answers {
+            let k = clean0.answers.iter().zip(clean.answers.iter()).position(|(x, y)| x != y);
+            return Err(format!("{}: fault-free answers depend on the reader's read sizes: op {:?} answers {:?} on a reader that fills every request and {:?} on this one (open: {} / {})", ctx0, k.map(|k| &b.ops[k]), k.map(|k| clean0.answers[k]), k.map(|k| clean.answers[k]), clean0.open_ok, clean.open_ok));
+        }
+    }
     // exhaustive single-fault schedules: one run per I/O call index and kind (sampled above 300 calls)
     let idxs: Vec<u64> = if ncalls <= 300 { (0..ncalls).collect() } else { (0..300).map(|_| c.below(ncalls)).collect() };
     let mut runs = 0u64;
@@ -172,13 +204,85 @@ fn oracle(case: &[u8], obs: &mut Obs) -> Result<(), String> {
     Ok(())
 }
 
+/// Cache pressure: many DISTINCT byte ranges of one length are read through one stream handle (more than any small
+/// cache holds), then one further range of that length is requested while the reader fails (optionally after a short
+/// read), then every earlier range is asked again, oldest or newest first: each answer is an error or the true bytes.
+fn oracle_pressure(case: &[u8], obs: &mut Obs) -> Result<(), String> {
+    use elf::section::SectionHeader;
+    let mut c = Choice::new(case);
+    let o = RichOpts { override_chance: 0, corrupt_chance: 0, max_gap: 16, tables_early: false, allow_compressed: false, max_names: 5, shrink_chance: 0, many_sections: false };
+    let r = filegen::rich_file(&mut c, &o);
+    let data = r.built.bytes;
+    let len = *c.pick(&[1u64, 4, 8, 16, 24, 64, 3, 100]);
+    if (data.len() as u64) < len + 140 {
+        return Ok(());
+    }
+    let n = 8 + c.below(90) as usize;
+    let span = data.len() as u64 - len;
+    let step = (span / (n as u64 + 1)).max(1);
+    let hdr = |s: u64| SectionHeader { sh_name: 0, sh_type: 1, sh_flags: 0, sh_addr: 0, sh_offset: s, sh_size: len, sh_link: 0, sh_info: 0, sh_addralign: 1, sh_entsize: 0 };
+    let starts: Vec<u64> = (0..n as u64).map(|i| (i * step) % (span + 1)).collect();
+    let extra = (n as u64 * step + c.below(step)) % (span + 1);
+    let (chunks, intr) = stream::gen_reader_behaviour(&mut c, 1);
+    let reader = Reader::with(data.clone(), chunks.clone(), intr, vec![]);
+    let ctx = format!("rich file of {} bytes, {} distinct ranges of {} bytes, reader chunks {:?} interrupt_every {}", data.len(), n, len, chunks, intr);
+    let fb = open_as(AnyEndian::Little, &data).map_err(|e| format!("harness: generated file does not open: {}", err_name(&e)))?;
+    let mut s = match guard(|| open_stream_as(AnyEndian::Little, reader.clone())).map_err(|p| format!("{}: open_stream panicked: {}", ctx, p))? {
+        Ok(s) => s,
+        Err(e) => return Err(format!("{}: the slice opens but open_stream fails with {}", ctx, err_name(&e))),
+    };
+    let truth = |st: u64| queries::eval_bytes(&fb, &Q::FabSecData(hdr(st)));
+    for (i, st) in starts.iter().enumerate() {
+        let got = guard(|| queries::eval_stream(&mut s, &Q::FabSecData(hdr(*st)))).map_err(|p| format!("{}: read #{} panicked: {}", ctx, i, p))?;
+        if got != Some(truth(*st)) {
+            return Err(format!("{}: range #{} [{}, +{}) answers {:?}; its bytes give {:?}", ctx, i, st, len, got, truth(*st)));
+        }
+    }
+    // the failing request
+    let at = reader.calls() + c.below(3);
+    let sched: Vec<Fault> = match c.below(4) {
+        0 => vec![Fault { at, kind: FaultKind::Error, permanent: false, ekind: c.below(8) as u8 }],
+        1 => vec![Fault { at, kind: FaultKind::Eof, permanent: false, ekind: 0 }],
+        _ => vec![Fault { at, kind: FaultKind::Short, permanent: false, ekind: 0 }, Fault { at: at + 1, kind: if c.bool() { FaultKind::Error } else { FaultKind::Eof }, permanent: false, ekind: c.below(8) as u8 }],
+    };
+    reader.st.borrow_mut().faults.extend(sched.iter().copied());
+    let f0 = reader.fired();
+    let got = guard(|| queries::eval_stream(&mut s, &Q::FabSecData(hdr(extra)))).map_err(|p| format!("{}: the failing read panicked: {}", ctx, p))?;
+    let fired = reader.fired() > f0;
+    if fired && matches!(got, Some(Ok(_))) {
+        return Err(format!("{}: an I/O fault ({:?}) fired while range [{}, +{}) was read but the call returned {:?}", ctx, sched, extra, len, got));
+    }
+    reader.clear_faults();
+    let order: Vec<usize> = match c.below(3) {
+        0 => (0..n).collect(),
+        1 => (0..n).rev().collect(),
+        _ => (0..n).map(|_| c.idx(n)).collect(),
+    };
+    for i in order {
+        let got = guard(|| queries::eval_stream(&mut s, &Q::FabSecData(hdr(starts[i])))).map_err(|p| format!("{}: re-read of #{} panicked: {}", ctx, i, p))?;
+        if got != Some(truth(starts[i])) {
+            return Err(format!("{}: after a failed read of [{}, +{}) (schedule {:?}, fired: {}) range #{} [{}, +{}) answers {:?}; its bytes give {:?}", ctx, extra, len, sched, fired, i, starts[i], len, got, truth(starts[i])));
+        }
+    }
+    obs.count("ranges_reverified", n as u64);
+    obs.label_if(fired, "fault_fired_in_the_extra_read");
+    obs.label_if(n >= 33, "33+_distinct_ranges");
+    obs.label_if(n >= 65, "65+_distinct_ranges");
+    if fired && n >= 33 {
+        obs.nontrivial();
+    }
+    obs.key = fnv64(&data) ^ (n as u64) << 50 ^ len << 40 ^ fnv64(format!("{:?}{:?}", sched, chunks).as_bytes());
+    obs.describe(|| json!({"base": ctx, "schedule": format!("{:?}", sched), "fired": fired}));
+    Ok(())
+}
+
 pub fn property() -> Property {
     Property {
         id: "C17",
         level: "fault_enumeration",
-        rule: "base cases are (file: a rich generated file or a linker-produced sample <= 16 KB) x (0..10 stream calls from the C07 vocabulary plus up to 3 repeats, so that a query that failed is asked again later) x (reader delivering unlimited or 24..88-byte chunks, optionally ErrorKind::Interrupted every n-th read, cursor initially at 0 or elsewhere). The base case is run fault-free to count its N I/O calls (every seek and every read); then EXHAUSTIVELY one run per call index k < N (300 sampled indices above that) for each of {error (ErrorKind::Other), premature EOF} x {transient (only call k), permanent (every call from k on)} and one transient error of another io::ErrorKind (Unsupported, WouldBlock, UnexpectedEof, TimedOut, PermissionDenied, InvalidData, BrokenPipe; rotating with k), plus 3 runs on a stream on which every SeekFrom::End fails (Other, Unsupported, one more kind), plus 6 random multi-fault schedules with legal short reads mixed in. Oracle: the call (open or query) during which an error/EOF fault fired returns Err (no panic, no Ok); every other call returns Err or exactly the content digest it returns on the fault-free stream; open never fails unless a fault fired during it. Non-trivial: a fault fired inside a query (not only in open) and a later query succeeded; distinct by (file, ops, reader) hash.",
+        rule: "base cases are (file: a rich generated file or a linker-produced sample <= 16 KB) x (0..10 stream calls from the C07 vocabulary plus up to 3 repeats, so that a query that failed is asked again later) x (reader delivering unlimited or 24..88-byte chunks, optionally ErrorKind::Interrupted every n-th read, cursor initially at 0 or elsewhere). The base case is run fault-free to count its N I/O calls (every seek and every read); then EXHAUSTIVELY one run per call index k < N (300 sampled indices above that) for each of {error (ErrorKind::Other), premature EOF} x {transient (only call k), permanent (every call from k on)} and one transient error of another io::ErrorKind (Unsupported, WouldBlock, UnexpectedEof, TimedOut, PermissionDenied, InvalidData, BrokenPipe; rotating with k), plus 3 runs on a stream on which every SeekFrom::End fails (Other, Unsupported, one more kind), plus 6 random multi-fault schedules with legal short reads mixed in. Oracle: the call (open or query) during which an error/EOF fault fired returns Err (no panic, no Ok); every other call returns Err or exactly the content digest it returns on the fault-free stream; open never fails unless a fault fired during it. Non-trivial: a fault fired inside a query (not only in open) and a later query succeeded; distinct by (file, ops, reader) hash. One base file in 32 has a section of 64..104 KiB that is queried first and last; the fault-free answers on a reader with short reads / interruptions must equal those on a reader that fills every request. Subcheck cache_pressure: 8..97 distinct byte ranges of one length (1..100 bytes) read through one handle and checked against the file's bytes, then one more range of that length requested while the reader fails (error, premature EOF, or a short read followed by either), then every earlier range asked again oldest-first, newest-first or in random order: each answer equals the file's bytes; non-trivial when the fault fired and at least 33 ranges were cached.",
         assumptions: &["a call that has not returned after 60 s on a file of at most 16 KB (a fault-free case takes milliseconds) has not returned an error: reported as a violation by the watchdog", "ErrorKind::Interrupted is not a failure (read_exact retries it) and does not consume an I/O call index", "a short read is legal reader behaviour, not a failure"],
-        subs: vec![Sub::new("faults", oracle, 1800, 60_000, 2_000_000).shrink(300).hang_violation().hang_secs(60)],
+        subs: vec![Sub::new("faults", oracle, 1800, 60_000, 2_000_000).shrink(300).hang_violation().hang_secs(60), Sub::new("cache_pressure", oracle_pressure, 1500, 150_000, 5_000_000).shrink(400).hang_violation().hang_secs(60)],
         extras: vec![crate::fuzz::c17_choice],
     }
 }
